@@ -7,7 +7,7 @@ from lib import vlib
 
 REASONS = {
     "C02": {"malformed_response", "bad_framing", "cert_invalid", "srep_sig_invalid", "midpoint_outside_delegation", "version_fields",
-            "proof_invalid", "proof_for_other_request", "nonce_not_echoed", "fault_rate", "unsolicited", "wrong_protocol",
+            "proof_invalid", "proof_for_other_request", "nonce_not_echoed", "fault_rate", "fault_not_per_response", "unsolicited", "wrong_protocol",
             "path_length_differs_under_one_root", "path_too_short_for_batch", "batch_larger_than_configured"},
     "C07": {"amplification", "reply_to_malformed"},
     "C08": {"panic", "wedged", "no_reply_to_valid"},
